@@ -4,31 +4,43 @@
   END-TO-END: `Pipeline.run : Bytes → Outcome` (Model/Pipeline.lean) models `pdf_printer` from the bytes of the
   file to the exit status: loader, dump_root, type check against the shipped catalog specification, page DOM,
   per-page decoding and text extraction, with the glue of src/bin/pdf_printer.rs.  Every Rust partial operation
-  of every stage model and every fuel of a loop modelled with fuel is an explicit `panic` outcome, so
+  of every stage model and every fuel of a loop modelled with fuel is an explicit `panic` outcome.
 
-      pipeline_never_panics_partial   for EVERY byte string below 2^62 bytes, `run bs` is `completed` or
-                                      `rejected` - never a panic site, never an exhausted fuel
+  WHAT IS LEFT OF THE DECODER HYPOTHESIS.  C03's loader theorem assumed `DecodersTotal` (no decoder panics; no
+  decoder returns more than 2^63 bytes).  The first clause is a theorem now (Lemmas/LoaderDecoders.lean) and the
+  second is needed in ONE place of the whole pipeline: the object-stream pass of the loader, where decoded data
+  becomes a buffer whose address arithmetic must not overflow.  Hence:
 
-  is a real obligation.  It is assembled from the stage theorems: C03 loader (with C16, C05, C13, C14, C07 inside),
-  dump_root's traversal (proved here: Lemmas/Pipeline.lean), C09 work bound + the two `unreachable!` sites of the
-  machine excluded for the regenerated shipped specification (Lemmas/Pipeline.lean), C11 page DOM, and the text
-  extractor's totality for all inputs (proved here: Lemmas/ContentTotal.lean).
-  `_partial`: ONE hypothesis is inherited from C03 and not discharged - `DecodersTotal` (the executable zlib
-  inflate model never ends in its own fuel outcome and no decoder returns more than 2^63 bytes).
+      process_file_never_panics       everything after the loader: UNCONDITIONAL, for every loaded context
+      pipeline_reduces_to_loader      `run bs` is completed/rejected whenever the loader model reaches no panic site
+      pipeline_never_panics_sized     every file below 2^62 bytes, under `DecodedSizes` only (decoding an input of more
+                                      than 2^63/2064 bytes yields at most 2^63 bytes)
+      pipeline_never_panics_small     NO decoder hypothesis: every file with 2064^k · |file| ≤ 2^63 in which no dictionary
+                                      the object parser can read (at any offset, any depth) names more than k filters;
+                                      instances: k = 1 up to 4.4·10^15 bytes, k = 2 up to 2.1·10^12, k = 3 up to 10^9
+                                      (`pipeline_never_panics_small_k1/_k3`)
+      pipeline_never_panics_partial   (kept) the old statement under `DecodersTotal`, now a corollary of `_sized`
 
-      process_file_never_panics       everything after the loader, for EVERY loaded context (no size bound)
+  A bound in |file| ALONE does not exist below 72 bytes-scale: a chain of n filters can multiply the length by
+  2064^n, n is limited only by the number of filter names in a dictionary (12 bytes each), and the intermediate
+  results are not limited by the file - so the chain length has to appear in the statement.
+
       extract_never_panics            the text extractor is total: full strength, no hypothesis
       dump_root_terminates            the breadth-first traversal finishes within |objU|+1 dequeues on every graph
+      dump_root_depth_labels          dump_root AS WRITTEN carries `depth : u32` labels (`depth + 1`, debug-checked): the
+                                      labelled loop equals the modelled one while the traversal's universe has at most
+                                      2^32 objects (a label is smaller than the number of processed objects);
+                                      `depth_overflow_reachable_scaled`: with the limit scaled to 3 a chain of four
+                                      references reaches the site.  Fix C01-01 (saturating_add) removes the site.
       shipped_check_total             check_type on the shipped specification: no `unreachable!`, within workBound
-      pipeline_fuel_bound_partial     the explicit budgets of the pipeline's loops, each a function of the loaded
-                                      document; more fuel never changes a result
-      parseDataE_agrees               the loader variant used by the pipeline (it also returns the `encrypted`
-                                      flag and the nesting depth) agrees with Loader.parseData (C03/C04's model)
-      pipeline_stages_never_panic_partial   (kept) the stage theorems gathered into one obligation, so that a
-                                      stage model losing its no-panic theorem breaks C01 as well
+      pipeline_fuel_bound_partial     the explicit budgets of the pipeline's loops + the closed forms that exist
+      pipeline_encrypted_hybrid_rejected   the /Encrypt behaviour of the loader at pipeline level
+      parseDataE_agrees               the loader variant used by the pipeline agrees with Loader.parseData
+      pipeline_stages_never_panic_partial   (kept) the stage theorems gathered into one obligation
 
   NOT covered by any theorem (only by running the real binary): the machine stack actually consumed,
-  zlib / jpeg-decoder / regex internals, allocation failure, wall-clock time, stdout being closed.
+  zlib / jpeg-decoder / regex internals, allocation failure (incl. Vec capacity overflow), wall-clock time,
+  stdout being closed.
 -/
 import Parsley.Props.C16
 import Parsley.Props.C05
@@ -40,6 +52,8 @@ import Parsley.Props.C09
 import Parsley.Props.C03
 import Parsley.Lemmas.Pipeline
 import Parsley.Lemmas.ContentTotal
+import Parsley.Lemmas.PipelineSized
+import Parsley.Props.C03Enc
 namespace Parsley.C01
 open Parsley
 
@@ -83,23 +97,24 @@ theorem pipeline_stages_never_panic_partial :
    C03.load_never_panics_partial,
    fun g ctx o c => C09.machine_terminates TC.Fix.tree rfl g ctx o c⟩
 
-/-! ## the end-to-end theorem -/
+/-! ## the end-to-end theorems -/
 
 /-- the loader variant of the pipeline agrees with the loader model of C03/C04 on everything that one returns -/
 theorem parseDataE_agrees (data : Bytes) :
     Pipeline.Out.map Pipeline.LoadedE.toLoaded (Pipeline.parseDataE data) = Loader.parseData data :=
   PipelineLemmas.parseDataE_eq data
 
-theorem parseDataE_no_panic (data : Bytes) (hlen : data.length < 2 ^ 62) (hdec : LoaderNoPanic.DecodersTotal)
-    (p : String) : Pipeline.parseDataE data ≠ .panic p := by
-  intro h
-  have h1 := parseDataE_agrees data
-  rw [h] at h1
-  have h2 := C03.load_never_panics_partial data hlen hdec
-  rw [← h1] at h2
-  simp [Pipeline.Out.map, Loader.Out.isPanic] at h2
+/-- clause 1 of `DecodersTotal` is a theorem -/
+theorem decNP : PipelineLemmas.DecNP := LoaderDecoders.applyFilter_no_panic
 
-theorem collect_no_panic (hdec : LoaderNoPanic.DecodersTotal) :
+theorem parseDataE_no_panic_of (data : Bytes) (h : ∀ p, Loader.parseData data ≠ .panic p) (p : String) :
+    Pipeline.parseDataE data ≠ .panic p := by
+  intro h0
+  have h1 := parseDataE_agrees data
+  rw [h0] at h1
+  exact h p h1.symm
+
+theorem collect_no_panic :
     ∀ (cs : List (PageDom.Src × Obj.Obj)) (buf : Bytes) (p : String), Pipeline.collect cs buf ≠ .panic p := by
   intro cs
   induction cs with
@@ -112,9 +127,9 @@ theorem collect_no_panic (hdec : LoaderNoPanic.DecodersTotal) :
     split
     · exact ih _ _
     · simp
-    · rename_i q hq; exact absurd hq (PipelineLemmas.decodeObjStream_np hdec _ _ _)
+    · rename_i q hq; exact absurd hq (PipelineLemmas.decodeObjStream_np decNP _ _ _)
 
-theorem pagesLoop_no_panic (hdec : LoaderNoPanic.DecodersTotal) (d : Nat) :
+theorem pagesLoop_no_panic (d : Nat) :
     ∀ (pages : List (PageDom.ObjId × PageDom.PageKid)), (Pipeline.pagesLoop d pages).isPanic = false := by
   intro pages
   induction pages with
@@ -128,7 +143,7 @@ theorem pagesLoop_no_panic (hdec : LoaderNoPanic.DecodersTotal) (d : Nat) :
       split
       · rfl
       · split
-        · rename_i q hq; exact absurd hq (collect_no_panic hdec _ _ _)
+        · rename_i q hq; exact absurd hq (collect_no_panic _ _ _)
         · rfl
         · exact ih
         · split
@@ -136,7 +151,7 @@ theorem pagesLoop_no_panic (hdec : LoaderNoPanic.DecodersTotal) (d : Nat) :
           · rfl
           · rename_i q hq; exact absurd hq (ContentTotal.extract_never_panics _ _ _)
 
-theorem afterCheck_no_panic (hdec : LoaderNoPanic.DecodersTotal) (l : Pipeline.LoadedE) (rootObj : Obj.Obj)
+theorem afterCheck_no_panic (l : Pipeline.LoadedE) (rootObj : Obj.Obj)
     (tc : TC.Outcome) (h1 : ∀ s, tc ≠ .panic s) (h2 : tc ≠ .outOfFuel) :
     (Pipeline.afterCheck l rootObj tc).isPanic = false := by
   cases tc with
@@ -148,82 +163,203 @@ theorem afterCheck_no_panic (hdec : LoaderNoPanic.DecodersTotal) (l : Pipeline.L
     split
     · rfl
     · rename_i q hq; exact absurd hq (C11.dom_never_panics _ _ _)
-    · exact pagesLoop_no_panic hdec _ _
+    · exact pagesLoop_no_panic _ _
 
-theorem processFile_no_panic (hdec : LoaderNoPanic.DecodersTotal) (l : Pipeline.LoadedE) :
-    (Pipeline.processFile l).isPanic = false := by
+theorem processFile_no_panic (l : Pipeline.LoadedE) : (Pipeline.processFile l).isPanic = false := by
   unfold Pipeline.processFile
   split
   · rfl
   · rename_i rootObj _
-    rw [PipelineLemmas.dumpRoot_ok l.defs rootObj hdec l.enc]
-    exact afterCheck_no_panic hdec l rootObj _ (PipelineTC.typeCheck_np _ _) (PipelineTC.typeCheck_fuel _ _)
+    rw [PipelineLemmas.dumpRoot_ok l.defs rootObj decNP l.enc]
+    exact afterCheck_no_panic l rootObj _ (PipelineTC.typeCheck_np _ _) (PipelineTC.typeCheck_fuel _ _)
 
-/-- **C01, end to end.**  FULL STATEMENT WANTED: for every byte string, `Pipeline.run bs` is `completed` or
-    `rejected`.  PROVED: exactly that for every file below 2^62 bytes, under the one hypothesis inherited from the
-    loader theorem of C03: the stream decoders are total (`DecodersTotal`: the zlib inflate model does not run out
-    of its own fuel and decoders return at most 2^63 bytes).  No other panic site or fuel of any stage is
-    reachable: loader, dump_root traversal, type-check machine (work bound, `unreachable!` sites), page DOM,
-    content decoding glue, text extractor (all three fuels). -/
-theorem pipeline_never_panics_partial (bs : Bytes) (hlen : bs.length < 2 ^ 62) (hdec : LoaderNoPanic.DecodersTotal) :
+theorem outcome_cases (o : Pipeline.Outcome) (h : o.isPanic = false) : o = .completed ∨ o = .rejected := by
+  cases o with
+  | completed => exact Or.inl rfl
+  | rejected => exact Or.inr rfl
+  | panic s => cases h
+
+/-- **the stages after the loader: UNCONDITIONAL.**  For every loaded context (any definitions map, cyclic or not, of
+    any size) dump_root with decode_stream on every reachable stream, the type check against the shipped
+    specification, the page DOM, per-page decoding and the text extractor end in `completed` or `rejected`. -/
+theorem process_file_never_panics (l : Pipeline.LoadedE) :
+    Pipeline.processFile l = .completed ∨ Pipeline.processFile l = .rejected :=
+  outcome_cases _ (processFile_no_panic l)
+
+/-- **the pipeline is as total as the loader**: whenever the loader model reaches no panic site on `bs`, the whole
+    program ends in `completed` or `rejected` -/
+theorem pipeline_reduces_to_loader (bs : Bytes) (h : ∀ p, Loader.parseData bs ≠ .panic p) :
     Pipeline.run bs = .completed ∨ Pipeline.run bs = .rejected := by
-  have h : (Pipeline.run bs).isPanic = false := by
-    unfold Pipeline.run
-    split
-    · rfl
-    · rename_i q hq; exact absurd hq (parseDataE_no_panic bs hlen hdec q)
-    · exact processFile_no_panic hdec _
-  cases hr : Pipeline.run bs with
-  | completed => exact Or.inl rfl
-  | rejected => exact Or.inr rfl
-  | panic s => rw [hr] at h; cases h
+  apply outcome_cases
+  unfold Pipeline.run
+  split
+  · rfl
+  · rename_i q hq; exact absurd hq (parseDataE_no_panic_of bs h q)
+  · exact processFile_no_panic _
 
-/-- the stages after the loader need no size bound -/
-theorem process_file_never_panics (hdec : LoaderNoPanic.DecodersTotal) (l : Pipeline.LoadedE) :
-    Pipeline.processFile l = .completed ∨ Pipeline.processFile l = .rejected := by
-  have h := processFile_no_panic hdec l
-  cases hr : Pipeline.processFile l with
-  | completed => exact Or.inl rfl
-  | rejected => exact Or.inr rfl
-  | panic s => rw [hr] at h; cases h
+/-- **C01, end to end, under the size hypothesis only.**  FULL STATEMENT WANTED: for every byte string, `Pipeline.run bs`
+    is `completed` or `rejected`.  PROVED: exactly that for every file below 2^62 bytes under `DecodedSizes`: decoding
+    an input of MORE than 2^63/2064 bytes (2^61 for ASCII85, 2^64 for ASCIIHex) yields at most 2^63 bytes - a statement
+    about inputs that no such file contains directly, but that the list model cannot exclude for the intermediate
+    results of a filter chain (`LoaderDecoders.size_clause_false`).  The decoders' totality (inflate fuel, ASCII85,
+    ASCIIHex, predictor) is no longer assumed. -/
+theorem pipeline_never_panics_sized (bs : Bytes) (hlen : bs.length < 2 ^ 62) (hs : LoaderDecoders.DecodedSizes) :
+    Pipeline.run bs = .completed ∨ Pipeline.run bs = .rejected := by
+  apply pipeline_reduces_to_loader
+  intro p hp
+  have := LoaderDecoders.load_never_panics bs hlen hs
+  rw [hp] at this
+  cases this
+
+/-- **C01, end to end, WITHOUT any decoder hypothesis**, for files whose filter arrays are short.
+    `k` = the largest number of filters any dictionary of the file names (`FilterArraysLE k`: every dictionary the
+    object parser can read at any offset of the document, at any nesting depth; `bs.drop n` because the document view
+    starts at the `%PDF-` magic).  The size bound `2064^k · |bs| ≤ 2^63` is what makes every decoded object stream a
+    Rust buffer: 4.4·10^15 bytes for k = 1, 2.1·10^12 for k = 2, 1.04·10^9 for k = 3, 5·10^5 for k = 4. -/
+theorem pipeline_never_panics_small (k : Nat) (bs : Bytes) (hB : 2064 ^ k * bs.length ≤ 2 ^ 63)
+    (hfa : ∀ n, PipelineSized.FilterArraysLE k (bs.drop n)) :
+    Pipeline.run bs = .completed ∨ Pipeline.run bs = .rejected := by
+  apply pipeline_reduces_to_loader
+  have hlen : bs.length ≤ 2 ^ 63 :=
+    Nat.le_trans (Nat.le_mul_of_pos_left _ (Nat.pow_pos (by decide))) hB
+  exact PipelineSized.parseData_no_panic_small k bs hlen hB hfa
+
+/-- single filters only (`/Filter /FlateDecode`, or arrays of one name): every file up to 4 468 688 002 352 120 bytes -/
+theorem pipeline_never_panics_small_k1 (bs : Bytes) (hB : bs.length ≤ 4468688002352120)
+    (hfa : ∀ n, PipelineSized.FilterArraysLE 1 (bs.drop n)) :
+    Pipeline.run bs = .completed ∨ Pipeline.run bs = .rejected :=
+  pipeline_never_panics_small 1 bs (Nat.le_trans (Nat.mul_le_mul_left _ hB) (by decide)) hfa
+
+/-- chains of at most three filters: every file up to 1 048 964 155 bytes (1 GB) -/
+theorem pipeline_never_panics_small_k3 (bs : Bytes) (hB : bs.length ≤ 1048964155)
+    (hfa : ∀ n, PipelineSized.FilterArraysLE 3 (bs.drop n)) :
+    Pipeline.run bs = .completed ∨ Pipeline.run bs = .rejected :=
+  pipeline_never_panics_small 3 bs (Nat.le_trans (Nat.mul_le_mul_left _ hB) (by decide)) hfa
+
+/-- (kept) the statement of the first two rounds: under C03's `DecodersTotal`.  Now a corollary: only the size
+    clause of the hypothesis is used. -/
+theorem pipeline_never_panics_partial (bs : Bytes) (hlen : bs.length < 2 ^ 62) (hdec : LoaderNoPanic.DecodersTotal) :
+    Pipeline.run bs = .completed ∨ Pipeline.run bs = .rejected :=
+  pipeline_never_panics_sized bs hlen (LoaderDecoders.decodedSizes_of_clause hdec.2)
 
 /-- the text extractor is total on every input (full strength: no hypothesis) -/
 theorem extract_never_panics (d : Nat) (s : Bytes) (p : String) : Content.extract d s ≠ .panic p :=
   ContentTotal.extract_never_panics d s p
 
 /-- dump_root never panics and always finishes within its budget, on every definition map and root -/
-theorem dump_root_terminates (hdec : LoaderNoPanic.DecodersTotal) (enc : Bool) (defs : ObjStm.Defs) (root : Obj.Obj) :
+theorem dump_root_terminates (enc : Bool) (defs : ObjStm.Defs) (root : Obj.Obj) :
     Pipeline.dumpRoot enc defs root = .ok () :=
-  PipelineLemmas.dumpRoot_ok defs root hdec enc
+  PipelineLemmas.dumpRoot_ok defs root decNP enc
+
+/-- **dump_root as written (before fix C01-01)**: the `depth : u32` labels.  `depth + 1` is evaluated only when an
+    object is pushed, and a label is always smaller than the number of processed objects, so the debug-checked add
+    cannot overflow while the traversal's universe (null, the root, the definitions and their sub-objects) has at
+    most 2^32 distinct objects: then the loop as written IS the modelled loop (and ends `ok`). -/
+theorem dump_root_depth_labels (enc : Bool) (defs : ObjStm.Defs) (root : Obj.Obj)
+    (h : (TC.Term.objU (Pipeline.toGraph defs) (Pipeline.toTC root)).length ≤ 2 ^ 32) :
+    Pipeline.dumpRootD enc defs root = Pipeline.dumpRoot enc defs root ∧ Pipeline.dumpRootD enc defs root = .ok () := by
+  have := PipelineLemmas.dumpRootD_eq defs root h enc
+  exact ⟨this, this.trans (dump_root_terminates enc defs root)⟩
+
+/-- a reference chain `1 0 R -> 2 0 R -> 3 0 R -> 4 0 R -> null` -/
+def chainDefs : ObjStm.Defs := [((1, 0), .ref 2 0), ((2, 0), .ref 3 0), ((3, 0), .ref 4 0), ((4, 0), .null)]
+
+/-- the overflow site of the labelled loop IS reachable: with the limit scaled from 2^32 to 3, the chain above
+    (labels 0,1,2, then `2 + 1`) ends in the overflow outcome; with the real limit the same document is fine.
+    (Kernel evaluation of the model on an instance.  The real site needs a chain of 2^32 distinct objects, i.e. a
+    file of tens of gigabytes and a processed set of hundreds: not reproducible in the correspondence run.) -/
+theorem depth_overflow_reachable_scaled :
+    (match Pipeline.bfsD 3 false chainDefs 10 [(.ref 1 0, 0)] [Pipeline.toTC (.ref 1 0)] with
+      | .panic s => s == "dump_root: depth + 1 overflow" | _ => false) = true ∧
+    (match Pipeline.dumpRootD false chainDefs (.ref 1 0) with | .ok _ => true | _ => false) = true := by
+  constructor <;> decide +kernel
 
 /-- the type-check machine on the shipped specification: neither `unreachable!` site, never out of its work bound -/
 theorem shipped_check_total (g : TC.Graph) (o : TC.Obj) :
     (∀ s, Pipeline.typeCheck g o ≠ .panic s) ∧ Pipeline.typeCheck g o ≠ .outOfFuel :=
   ⟨PipelineTC.typeCheck_np g o, PipelineTC.typeCheck_fuel g o⟩
 
-/-- **explicit budgets** of the loops of the pipeline, each in terms of the loaded document.
-    FULL STATEMENT WANTED: one closed-form step bound in |bs|.  PROVED: the per-loop budgets below and that
-    more fuel never changes a result; they are functions of the loaded definitions, not of |bs| alone, because an
-    object stream may decode to more bytes than the file has (the loader's own loops are bounded in |bs|:
-    C04.chain_length_bounded, and the two passes are structural in the entry list). -/
+/-- **the /Encrypt behaviour at pipeline level.**  Whatever the loader rejects the program rejects (exit status 1);
+    in particular the hybrid file whose own trailer declares /Encrypt (C03.encHybridTrailer: the /XRefStm stream is
+    read after the flag went up and refused) and the file whose newest trailer declares it above a stream section.
+    (The complete one-page document in this layout is corpus/C01/encrypted_hybrid.case, run through the real binary.) -/
+theorem pipeline_encrypted_hybrid_rejected :
+    (∀ bs, Loader.parseData bs = .reject → Pipeline.run bs = .rejected) ∧
+    Pipeline.run C03.encHybridTrailer = .rejected ∧ Pipeline.run C03.encAboveStream = .rejected := by
+  have key : ∀ bs, Loader.parseData bs = .reject → Pipeline.run bs = .rejected := by
+    intro bs h
+    have h1 := parseDataE_agrees bs
+    rw [h] at h1
+    unfold Pipeline.run
+    cases hp : Pipeline.parseDataE bs with
+    | reject => rfl
+    | panic q => rw [hp] at h1; cases h1
+    | ok l => rw [hp] at h1; cases h1
+  have rej : ∀ o : Loader.Out Loader.Loaded, C03.isRejected o = true → o = .reject := by
+    intro o h; cases o <;> first | rfl | cases h
+  exact ⟨key, key _ (rej _ C03.refused_hybrid_declared), key _ (rej _ C03.refused_declared_above_stream)⟩
+
+/-- **explicit budgets** of the loops of the pipeline.
+    FULL STATEMENT WANTED: one closed-form step bound in |bs|.
+    PROVED, closed forms in |bs| where they exist:
+      (1) the /Prev loop of the loader: its budget |s|+1 is never exhausted (and C04.chain_length_bounded: at most |s|
+          sections);
+      (5) every stream the loader's file-level passes define has a raw content of at most |s| bytes, one
+          `decode_stream` yields at most 2064^(number of filters) times that, and a page with m content streams of
+          at most k filters each gets a content buffer of at most m·(1 + 2064^k·|s|) bytes - the text extractor's two
+          budgets are |buffer|+1 and 2|buffer|+2 (clause 4: never exhausted);
+    and budgets in terms of the LOADED document where no closed form in |bs| exists:
+      (2) dump_root: |objU|+1 dequeues; (3) check_type: workBound iterations, any larger fuel gives the same run;
+          to_page_dom: |defs|+1.
+    EXACT DEPENDENCY of the rest: |defs|, |objU|, workBound and the number m of content streams of a page depend on
+    the NUMBER AND SIZE OF THE OBJECTS DEFINED, which |bs| bounds only for objects parsed from the file itself; the
+    members of an object stream are parsed from decoded data of up to 2064^k·|bs| bytes, and the entry list of a
+    cross-reference stream from decoded rows likewise.  No lemma "a parsed object has at most as many nodes as bytes
+    consumed" is proved, so even the file-level part of |objU| is not bounded here. -/
 theorem pipeline_fuel_bound_partial :
-    -- dump_root: at most |objU| objects are dequeued, for every graph (cyclic ones included)
-    (∀ (_ : LoaderNoPanic.DecodersTotal) (enc : Bool) (defs : ObjStm.Defs) (root : Obj.Obj) (f : Nat),
+    -- (1) the loader's /Prev loop: budget |s|+1, for every start offset and context
+    (∀ (st : Loader.St) (s : Bytes) (start : Nat) (p : String), C05.CtxWF st.ctx →
+        (Loader.xrefLoop (s.length + 1) st s start [] [] [] none).1 ≠ .panic p) ∧
+    -- (2) dump_root: at most |objU| objects are dequeued, for every graph (cyclic ones included)
+    (∀ (enc : Bool) (defs : ObjStm.Defs) (root : Obj.Obj) (f : Nat),
         Pipeline.bfsFuel defs root ≤ f → Pipeline.bfs enc defs f [root] [Pipeline.toTC root] = .ok ()) ∧
-    -- check_type on the shipped specification: within workBound iterations; any larger fuel gives the same run
+    -- (3) check_type on the shipped specification: within workBound iterations; any larger fuel gives the same run
     (∀ (g : TC.Graph) (o : TC.Obj) (m : Nat),
         TC.Term.workBound TC.Fix.tree g Pipeline.shippedCtx o Pipeline.shippedCat ≤ m →
         TC.checkTypeFuel TC.Fix.tree g Pipeline.shippedCtx m o Pipeline.shippedCat =
           TC.checkTypeFuel TC.Fix.tree g Pipeline.shippedCtx
             (TC.Term.workBound TC.Fix.tree g Pipeline.shippedCtx o Pipeline.shippedCat) o Pipeline.shippedCat) ∧
-    -- to_page_dom: within |defs|+1 iterations
+    --     to_page_dom: within |defs|+1 iterations
     (∀ (defs : PageDom.Defs) (cat : Obj.Obj) (fuel : Nat), defs.length + 1 ≤ fuel →
         PageDom.toPageDomFuel defs fuel cat = PageDom.toPageDom defs cat) ∧
-    -- text extraction: the budgets |content|+1 (loop) and 2|content|+2 (object parser) are never exhausted
-    (∀ (d : Nat) (s : Bytes) (p : String), Content.extract d s ≠ .panic p) := by
-  refine ⟨?_, ?_, ?_, extract_never_panics⟩
-  · intro hdec enc defs root f hf
-    apply PipelineLemmas.bfs_ok defs root hdec enc
+    -- (4) text extraction: the budgets |content|+1 (loop) and 2|content|+2 (object parser) are never exhausted
+    (∀ (d : Nat) (s : Bytes) (p : String), Content.extract d s ≠ .panic p) ∧
+    -- (5) closed forms for decoding: stream contents, one decode_stream, one page's content buffer
+    (∀ (s : Bytes) (st : Loader.St) (start : Nat) (infos : List Loader.ObjInfo) (os : List Indirect.ObjId)
+        (sp : List (Nat × Nat × Nat)),
+        PipelineSized.DefsContent s.length st.ctx.defs →
+        PipelineSized.DefsContent s.length (Loader.getXrefInfo st s start).2.ctx.defs ∧
+        PipelineSized.DefsContent s.length (Loader.firstPass infos st.ctx s os sp).2.defs ∧
+        PipelineSized.DefsContent s.length (Loader.secondPass sp st.ctx s).2.defs) ∧
+    (∀ (kvs : List (Bytes × Obj.Obj)) (sc : Prim.StreamContent) (out : Bytes) (d : Filters.Dict),
+        Pipeline.decodeObjStream kvs sc = .ok (out, d) →
+        out.length ≤ 2064 ^ PipelineSized.nFilters kvs * sc.content.length) ∧
+    (∀ (k n : Nat) (cs : List (PageDom.Src × Obj.Obj)) (out : Bytes),
+        (∀ c ∈ cs, ∀ kvs sc, c.2 = .stream kvs sc → PipelineSized.nFilters kvs ≤ k ∧ sc.content.length ≤ n) →
+        Pipeline.collect cs [] = .ok (some out) → out.length ≤ cs.length * (1 + 2064 ^ k * n)) := by
+  refine ⟨?_, ?_, ?_, ?_, extract_never_panics, ?_, PipelineSized.decodeObjStream_len, ?_⟩
+  · intro st s start p hwf h
+    have := PipelineSized.getXrefInfo_ok' st s start hwf
+    unfold Loader.getXrefInfo at this
+    revert this h
+    generalize Loader.xrefLoop (s.length + 1) st s start [] [] [] none = r
+    obtain ⟨o, st'⟩ := r
+    intro h this
+    simp only at h
+    subst h
+    exact this
+  · intro enc defs root f hf
+    apply PipelineLemmas.bfs_ok defs root decNP enc
     · refine ⟨?_, ?_, by simp⟩
       · intro o ho
         simp only [List.mem_singleton] at ho
@@ -242,6 +378,13 @@ theorem pipeline_fuel_bound_partial :
     exact (C09.machine_work_bound TC.Fix.tree rfl g Pipeline.shippedCtx o Pipeline.shippedCat).2 m hm
   · intro defs cat fuel h
     exact (C11.dom_terminates defs cat fuel h).1
+  · intro s st start infos os sp h
+    have hp := PipelineSized.preserved_content s
+    exact ⟨LoaderDefsInv.getXrefInfo_inv s _ hp st start h, LoaderDefsInv.firstPass_inv s _ hp infos st.ctx os sp h,
+      LoaderDefsInv.secondPass_inv s _ hp sp st.ctx h⟩
+  · intro k n cs out hcs h
+    have := PipelineSized.collect_len k n cs [] out hcs h
+    simpa using this
 
 /-! ## non-vacuity: concrete runs of the stages on one complete document, evaluated by the KERNEL
     (tests of the definitions on an instance, not theorems about all files).  The whole `Pipeline.run` on this
@@ -296,6 +439,15 @@ example : Pipeline.typeCheck (Pipeline.toGraph tinyLoaded.defs) (Pipeline.toTC t
 -- the page DOM has its one page
 example : (match PageDom.toPageDom tinyLoaded.defs tinyRoot with | .ok (_, dom) => dom.pages.length == 1 | _ => false) = true := by
   decide +kernel
+-- the invariant `pipeline_never_panics_small` carries through the loader, on this document: every stream object
+-- defined names at most one filter (here: none), and the size bound for k = 1 holds with a wide margin
+example : (tinyLoaded.defs.all fun kv => match kv.2 with
+    | .stream kvs _ => PipelineSized.chainLEb 1 kvs | _ => true) = true ∧ 2064 ^ 1 * tinyDoc.length ≤ 2 ^ 63 := by
+  constructor <;> decide +kernel
+-- a dictionary naming three filters satisfies the bound for k = 3 and not for k = 2
+example : PipelineSized.chainLEb 3 [([70, 105, 108, 116, 101, 114], .arr [.name ObjStm.nAHex, .name ObjStm.nA85, .name ObjStm.nFlate])] = true ∧
+    PipelineSized.chainLEb 2 [([70, 105, 108, 116, 101, 114], .arr [.name ObjStm.nAHex, .name ObjStm.nA85, .name ObjStm.nFlate])] = false := by
+  constructor <;> decide +kernel
 -- the traversal budget on a cyclic graph: `1 0 obj [1 0 R]`
 example : (match Pipeline.dumpRoot false [((1, 0), .arr [.ref 1 0])] (.arr [.ref 1 0]) with | .ok _ => true | _ => false) = true := by
   decide +kernel
